@@ -36,6 +36,11 @@ def field_types(F, view):
             put(prefix + fld['name'], ty, adt_path, bind, depth)
 
     def put(path, ty, adt_path, bind, depth):
+        from .sir import norm_option_like_ty
+        if ty.get('adt') in getattr(F, 'option_like', {}):
+            ty = dict(ty)
+            ty['args'] = [bind.get(a['param'], a) if isinstance(a, dict) and 'param' in a else a for a in ty.get('args', [])]
+            ty = norm_option_like_ty(F, ty)
         if ty.get('adt') in ('std::vec::Vec', 'std::collections::VecDeque') and ty.get('args'):
             # a queue of small structs / tuples is presented by the value graph as one queue per component (sfa/vg.py: aos_normalise)
             el = ty['args'][0]
